@@ -37,5 +37,11 @@ CHECKS["C14"] = (
     "Theorems for all tables, states, actions, rewards, gamma, learning rates and termination flags: exactly entry (s,a) changes, by lr*(r + gamma(1-terminated)V_next - Q(s,a)) with V_next the greedy value (Q-learning), the supplied action's value (SARSA) or the other table's value of the updated table's greedy successor action (double Q); Monte-Carlo entries are the arithmetic means of their observed discounted returns; the Dyna-Q model row equals the empirical successor frequencies. The extracted model (rational instance) must equal the float32 implementation exactly on dyadic inputs.",
     "Trusts: Coq kernel + the standard library's real-number axioms (Print Assumptions: ClassicalDedekindReals.sig_forall_dec, sig_not_dec, functional_extensionality_dep, Classical_Prop.classic); extraction, OCaml glue, harness; JAX indexed updates as executed. Dyna-Q's mean-reward entry is tied by correspondence only.",
 )
+CHECKS["C18"] = (
+    "DESIGN.md §2 C18",
+    "Coq proof over R (two-hot coding via a unique-strict-minimum characterisation of the masked arg-min on strictly increasing bins; Huber piecewise form; masked MSE through an explicit NumPy-broadcasting tensor calculus; avg-L1 norm; linear schedule) + float correspondence with the JAX functions",
+    "Theorems: two-hot rows for any in-range value (edges included) are non-negative, sum to one, have at most two adjacent non-zero entries and decode to the value; symexp bins are strictly increasing; log-softmax is the log of the softmax; Huber = 0.5e^2 / delta(|e|-0.5delta); masked rows of 2-D predictions have zero weight (closed form), with the 1-D (N,N) broadcast kept visible as a refuted statement; avg-L1 output has mean |.| = 1 (finite near zero); schedule length, monotonicity, start value and constant tail. Polymorphic kernels are extracted and compared with the implementation on every run.",
+    "Trusts: Coq kernel + standard-library real-number axioms (Print Assumptions); extraction, OCaml glue (float64 libm), harness; float32-vs-float64 tolerances as stated in the evidence. Hypothesis of the two-hot theorem: bin range below the code's 1e8 offset (true for the default exponents +-10).",
+)
 _PENDING = "check not built yet in this revision (planned: Coq model + correspondence, see DESIGN.md §2)"
 NOT_APPLICABLE = {f"C{i:02d}": _PENDING for i in range(1, 21) if f"C{i:02d}" not in CHECKS}
